@@ -9,7 +9,7 @@ MAP = {"RK4Iterator evaluates": "C06", "TemperatureParameters constructor": "C13
        "diffusion setup shifts": "C04", "cuboidal shape factors are continuous": "C15", "trained surrogate diffusivity getters": "C20", "interfacial-composition training grid": "C20",
        "bookkeeping follows a re-mesh": "C13", "nucleation rate is reset": "C14", "betaBinary2 receives": "C14", "grain-boundary nucleation barrier stays": "C14",
        "Orowan strength contribution": "C18", "rebuilt from its JSON": "C20", "moduliToC accepts": "C16", "setup provides a zero growth rate": "C03",
-       "binary lookup table when no size class is stable": "C03", "PSD recording works with a fixed": "C03", "keeps the PSD backup": "C08", "RK4Iterator no longer accumulates": "C06", "setBC without an element": "C04", "below the smallest size class": "C07", "already met at the start of the step": "C19", "gets the disordered matrix phase only once": "C10", "survive a change of the size classes": "C03", "newly added size classes continues": "C03", "stay aligned with the steps while a phase is reset": "C03", "before any interfacial composition exists": "C03", "without recording can be loaded": "C20", "post-processing works on copies": "C17",
+       "binary lookup table when no size class is stable": "C03", "PSD recording works with a fixed": "C03", "keeps the PSD backup": "C08", "RK4Iterator no longer accumulates": "C06", "setBC without an element": "C04", "below the smallest size class": "C07", "already met at the start of the step": "C19", "gets the disordered matrix phase only once": "C10", "profile on which nothing changes": "C04", "fewer classes than minBins/2": "C08", "survive a change of the size classes": "C03", "newly added size classes continues": "C03", "stay aligned with the steps while a phase is reset": "C03", "before any interfacial composition exists": "C03", "without recording can be loaded": "C20", "post-processing works on copies": "C17",
        "site-type limit is rejected": "C14", "reaches the precipitates also after": "C14",
        "discards the composition sets cached by the previous method": "C09", "only reused for the same local sampling conditions": "C09",
        "does not fall back to an earlier query": "C09",
